@@ -211,7 +211,11 @@ def in_place_loading(ctx, rep, rule: str) -> None:
         rebinds = [n for s in t_arm.body for n in ast.walk(s) if isinstance(n, ast.Assign) and any(isinstance(t, ast.Name) and t.id == old for t in n.targets)]
         # through detach(): an in-place copy into a leaf tensor that requires grad raises outside no_grad, and copying from a
         # tensor that requires grad would otherwise turn the old tensor into a non-leaf with autograd history
-        ok = len(copies) == 1 and _norm(copies[0].func.value) == f"{old}.detach()" and _norm(copies[0].args[0]) == new and not rebinds
+        # ... and nothing else: no storage take-over (`set_`, `.data = …`) that would make the live state share memory with the
+        # caller's loaded dictionary, no condition under which the copy is skipped
+        takeover = [c for s in t_arm.body for c in A.calls(s, nested=True) if isinstance(c.func, ast.Attribute) and c.func.attr in ("set_", "swap_tensors", "share_memory_")] + [n for s in t_arm.body for n in ast.walk(s) if isinstance(n, ast.Assign) and any(isinstance(t, ast.Attribute) and t.attr == "data" for t in n.targets)]
+        unconditional = all(any(c is x for x in ast.walk(s)) and isinstance(s, ast.Expr) for c in copies for s in t_arm.body if any(c is x for x in ast.walk(s)))
+        ok = len(copies) == 1 and _norm(copies[0].func.value) == f"{old}.detach()" and _norm(copies[0].args[0]) == new and not rebinds and not takeover and unconditional
     # what the tensor arm hands back is the old tensor object: its own returns, and — when it falls through — the function's
     # trailing return (with the old name not re-bound by the arm)
     from ..canon import _terminates
@@ -391,6 +395,9 @@ def codec_semantics(ctx, rep, rule: str) -> None:
 
         nelement = numel
 
+        def data_ptr(self):
+            return 0 if self._n == 0 else id(self)
+
         def dim(self):
             return 1
 
@@ -404,7 +411,7 @@ def codec_semantics(ctx, rep, rule: str) -> None:
 
     def hook(it, c):
         f = c.func
-        if isinstance(f, ast.Attribute) and f.attr in ("numel", "nelement", "dim") and not c.args:
+        if isinstance(f, ast.Attribute) and f.attr in ("numel", "nelement", "dim", "data_ptr") and not c.args:
             b = it.ev(f.value)
             if isinstance(b, Leaf):
                 return getattr(b, f.attr)()
@@ -454,8 +461,11 @@ def codec_semantics(ctx, rep, rule: str) -> None:
         {"w": {"x": {"y": {"z": L("deep")}}, "x2": L("m")}, 0: {0: {0: L("n")}}},
         {"block_0": {"factor_matrices": {0: L("f0"), 1: L("f1", 0)}, "step": L("st")}, "block_1": {}},
         {"only_empty_children": {"e": {}}, "t": L("t")},
+        {"e1": L("empty1", 0), "e2": {"e3": L("empty2", 0)}, "t": L("t")},
         {},
     ]
+    shared = L("shared")
+    cases.append({"a": {"step": shared}, "b": {"step": shared}, "c": shared})  # one tensor object under several key paths
     bad = []
     try:
         for d in cases:
